@@ -7,7 +7,7 @@ import progspace
 import scopecorr
 import scopes
 
-LEAN_TARGETS = ["CM.Props.Lift", "CM.Props.C02Scope"]
+LEAN_TARGETS = ["CM.Props.Lift", "CM.Props.C02Scope", "CM.Props.C02Walrus"]
 THEOREMS = [
     "CM.Pipeline.run_preserves",
     "CM.Pipeline.C02_run_scope_safe",
@@ -19,6 +19,8 @@ THEOREMS = [
     "CM.Scope.C02_clean_scope_safe",
     "CM.Scope.C02_clean_scope_safe_python",
     "CM.Scope.C02_clean_old_unbinds_closure_read",
+    "CM.Scope.C02_walrus_inline_scope_safe",
+    "CM.Scope.C02_walrus_old_inline_unbinds_closure",
 ]
 RULE = (
     "program space of C01 (trigger snippets x context / nesting / layout variants, two-site files, decoy code) for every codemod with "
